@@ -108,7 +108,13 @@ func runC12(c *Ctx) {
 			}
 			for i, e := range phi.Edges {
 				if okR, _ := allOrigins(e, oFieldLoad("rt/client.Runtime", "Context", nil)); okR {
-					g := edgeGuarded(phi.Block().Preds[i], phi.Block(), nil, factNil(vFieldLoadO("rt.ClientOperation", "Context"), true))
+					noOp := factNil(vFieldLoadO("rt.ClientOperation", "Context"), true)
+					g := edgeGuarded(phi.Block().Preds[i], phi.Block(), nil, noOp)
+					if !g {
+						// a provisional choice (default, then the transport's, then the operation's overriding it): what counts
+						// is where the merged value can go on
+						g = ctxUsesGuarded(phi, noOp, 3)
+					}
 					c.obI("R12.1", lastInstr(phi.Block().Preds[i]), "operation-context-first", g, "the transport-wide context is used only when the operation has none", "")
 				}
 			}
